@@ -10,7 +10,10 @@ import (
 	"fmt"
 	"os"
 	"path/filepath"
+	"runtime"
 	"strconv"
+	"strings"
+	"sync"
 	"testing"
 	"time"
 
@@ -62,12 +65,66 @@ func TestWorker(t *testing.T) {
 	}
 	bw := bufio.NewWriter(out)
 	defer bw.Flush()
+	var emitMu sync.Mutex
 	emit := func(rec *core.RunRecord) {
+		emitMu.Lock()
+		defer emitMu.Unlock()
 		b, _ := json.Marshal(rec)
 		bw.Write(b)
 		bw.WriteByte('\n')
 		bw.Flush()
 	}
+
+	// real-time watchdog: a run that does not come back (a spin, or a deadlock on locks
+	// that testing/synctest cannot see as durably blocked) is reported as a hang with
+	// the goroutine dump; the process cannot continue after that.
+	runTimeout := time.Duration(envInt("VERIF_RUN_TIMEOUT_S", 120)) * time.Second
+	var wdMu sync.Mutex
+	var wdCur *core.Scenario
+	var wdIdx int
+	var wdStart time.Time
+	guard := func(sc *core.Scenario, idx int) func() {
+		wdMu.Lock()
+		wdCur, wdIdx, wdStart = sc, idx, time.Now()
+		wdMu.Unlock()
+		return func() {
+			wdMu.Lock()
+			wdCur = nil
+			wdMu.Unlock()
+		}
+	}
+	go func() {
+		for {
+			time.Sleep(2 * time.Second)
+			wdMu.Lock()
+			sc, idx, st := wdCur, wdIdx, wdStart
+			wdMu.Unlock()
+			if sc == nil || time.Since(st) < runTimeout {
+				continue
+			}
+			buf := make([]byte, 4<<20)
+			n := runtime.Stack(buf, true)
+			var gl []string
+			for _, g := range strings.Split(string(buf[:n]), "\n\n") {
+				if strings.Contains(g, "github.com/ProtonMail/gluon/") && !strings.Contains(g, "TestWorker") {
+					gl = append(gl, g)
+				}
+			}
+			if len(gl) > 12 {
+				gl = gl[:12]
+			}
+			v := &core.Violation{Property: propID, Oracle: "hang", Detail: fmt.Sprintf("the run did not finish within %v of real time (spin or deadlock); goroutines in gluon code:\n%s", runTimeout, strings.Join(gl, "\n\n")), Sig: "hang: run did not finish", Step: -1}
+			rec := &core.RunRecord{Idx: idx, Seed: sc.Seed, Violation: v, WallMs: time.Since(st).Milliseconds()}
+			if dir := os.Getenv("VERIF_REPLAY_DIR"); dir != "" && idx >= 0 {
+				path := filepath.Join(dir, fmt.Sprintf("%s-%d.json", propID, sc.Seed))
+				if core.WriteReplay(path, sc, v, nil) == nil {
+					rec.Replay = path
+				}
+			}
+			emit(rec)
+			os.Exit(3)
+		}
+	}()
 
 	if rp := os.Getenv("VERIF_REPLAY"); rp != "" {
 		sc, err := core.ReadReplay(rp)
@@ -76,7 +133,9 @@ func TestWorker(t *testing.T) {
 			os.Exit(2)
 		}
 		st := time.Now()
+		unguard := guard(sc, -1)
 		res := p.Execute(sc, true)
+		unguard()
 		rec := &core.RunRecord{Idx: -1, Seed: sc.Seed, Stats: res.Stats, Violation: res.V, Sample: res.Log, WallMs: time.Since(st).Milliseconds()}
 		if res.Infra != nil {
 			rec.Infra = res.Infra.Error()
@@ -113,7 +172,9 @@ func TestWorker(t *testing.T) {
 		sc.Tier = tier
 		st := time.Now()
 		keep := k%sampleEvery == 0
+		unguard := guard(sc, idx)
 		res := p.Execute(sc, keep)
+		unguard()
 		rec := &core.RunRecord{Idx: idx, Seed: rseed, Stats: res.Stats, WallMs: time.Since(st).Milliseconds()}
 		if keep {
 			rec.Sample = abridgeLog(res.Log, 40)
